@@ -7,7 +7,7 @@
 from typing import Any, Iterable, Optional, TypeVar, Union, cast
 
 import tomlkit
-from debian.copyright import Copyright, FilesParagraph, Header
+from debian.copyright import Copyright, FilesParagraph, Header, License
 
 from .global_licensing import REUSE_TOML_VERSION
 
@@ -97,7 +97,10 @@ def _annotations_from_paragraphs(
             "path": paths,
             "precedence": "aggregate",
             "SPDX-FileCopyrightText": copyrights,
-            "SPDX-License-Identifier": paragraph.license.to_str(),
+            # Only the synopsis is the expression; a license text may follow.
+            "SPDX-License-Identifier": cast(
+                License, paragraph.license
+            ).synopsis,
         }
         comment = _comment_from_paragraph(paragraph)
         if comment:
